@@ -419,7 +419,7 @@ impl Property for C09 {
     }
     fn cases(&self, tier: Tier) -> usize {
         match tier {
-            Tier::Quick => 160,
+            Tier::Quick => 400,
             Tier::Thorough => 6_000,
         }
     }
